@@ -1,5 +1,7 @@
 (* C11 — Matrix and Euler conversions are exact inverses of matrix() / each other.
-   Statements only (over R); proofs in Proofs/Convert.v; model in Model/Convert.v.
+   Statements only (over R); proofs in Proofs/Convert.v, Convert2.v (every proper rotation matrix),
+   Convert3.v (Euler both directions and gimbal branch, rejection by the scaled variants, kinds of
+   exception, totality); model in Model/Convert.v.
 
    Reading guide.  A batch is the list of its items (any number, any shape; [B] = batch shape occurs
    only in the history theorems about the code before its repair).  [Value out]: the call returns,
@@ -8,10 +10,17 @@
    L44); [lay_t l t] is the translation that layout carries (zero for L33).
    [so3_rt q o] : o = Some q' with q' = q or q' = -q;  [se3_rt], [sim3_rt], [rxso3_rt] likewise with the
    translation of the layout and the SAME scale.  rtol, atol are the tolerances of the call (defaults
-   1e-5): the theorems hold for every 0 <= rtol, 0 <= atol < 1. *)
+   1e-5): the theorems hold for every 0 <= rtol, 0 <= atol < 1.
+   Second half (matrix -> element -> matrix, no quaternion presupposed):
+   [rotation M] : M M^T = I and det M = 1.  [so3_of M o] : o = Some q, q a unit quaternion with matrix M;
+   [se3_of l (M, t) o], [sim3_of l (M, t, s) o], [rxso3_of (M, t, s) o] : o = Some X with X valid, the
+   SAME scale s, and X.matrix() = [[s M, t'], [0, 1]] (t' = the translation the layout carries; zero for
+   RxSO3).  [sc_item m] = cube root of det of the 3x3 block, [div_item m] = block / that scale,
+   [rank_small rtol atol s] = allclose(s, 0), [all_rank_small] = non-empty batch with all scales so;
+   [is_VE codes e] : e = ValueError k for some k of [codes]. *)
 From Coq Require Import Reals List Lra.
 Import ListNotations.
-From PV Require Import Base.Num Model.LieGroup Model.Convert Proofs.LieGroup Proofs.Convert.
+From PV Require Import Base.Num Model.LieGroup Model.Convert Proofs.LieGroup Proofs.Convert Proofs.Convert2 Proofs.Convert3.
 Local Open Scope R_scope.
 #[local] Remove Hints NumQ NumZ : typeclass_instances.
 
@@ -166,11 +175,241 @@ Theorem C11_euler_roundtrip : forall (eps : R) (q : quatR), 0 <= eps -> unitq q 
     (- PI < r <= PI) /\ (- (PI / 2) < p < PI / 2) /\ (- PI < y <= PI).
 Proof. exact euler_roundtrip. Qed.
 
+(* ==================== matrix -> element -> matrix, for EVERY proper rotation matrix ==================== *)
+(* proper rotations = matrices of unit quaternions (both inclusions), two unit quaternions with the same
+   matrix differ by sign only *)
+Theorem C11_rotation_is_quaternion_matrix : forall M : @mat3 R, rotation M -> exists q, unitq q /\ SO3_matrix q = M.
+Proof. exact rotation_has_quaternion. Qed.
+Theorem C11_quaternion_matrix_is_rotation : forall q : quatR, unitq q -> rotation (SO3_matrix q).
+Proof. exact quaternion_matrix_rotation. Qed.
+Theorem C11_same_matrix_same_quaternion_up_to_sign : forall q1 q2 : quatR,
+  unitq q1 -> unitq q2 -> SO3_matrix q1 = SO3_matrix q2 -> q2 = q1 \/ q2 = qnegate q1.
+Proof. exact same_matrix_qsame. Qed.
+(* mat2SO3 of every batch of proper rotation matrices (any of the four branches, angle pi included):
+   unit quaternions with exactly these matrices; check on or off *)
+Theorem C11_mat2SO3_every_rotation : forall (rtol atol : R) (check : bool) (Ms : list (@mat3 R)),
+  0 <= rtol -> 0 <= atol < 1 -> Forall rotation Ms ->
+  exists out, mat2SO3 rtol atol check (map Some Ms) = Value out /\ Forall2 so3_of Ms out.
+Proof. exact mat2SO3_rotation. Qed.
+Theorem C11_mat2SO3_item_every_rotation : forall (atol : R) (M : @mat3 R), -1 < atol < 1 -> rotation M ->
+  exists q, mat2SO3_core atol M = Some q /\ unitq q /\ SO3_matrix q = M.
+Proof. exact core_rotation. Qed.
+(* every rigid transformation matrix [[R, t], [0, 1]] and every similarity [[s R, t], [0, 1]], s > 0, in
+   every accepted layout: a valid element with the same matrix and the same scale *)
+Theorem C11_mat2SE3_every_matrix : forall (rtol atol : R) (check : bool) (l : layout) (Ts : list (@mat3 R * vec3R)),
+  0 <= rtol -> 0 <= atol < 1 -> Forall (fun T => rotation (fst T)) Ts ->
+  exists out, mat2SE3 rtol atol check (map (fun T => lay_in l (block4 (fst T) (snd T))) Ts) = Value out /\
+              Forall2 (se3_of l) Ts out.
+Proof. exact mat2SE3_rotation. Qed.
+Theorem C11_mat2Sim3_every_matrix : forall (rtol atol : R) (check : bool) (l : layout) (Ts : list (@mat3 R * vec3R * R)),
+  0 <= rtol -> 0 <= atol < 1 -> Forall (fun T => rotation (fst (fst T)) /\ 0 < snd T) Ts ->
+  (Ts = [] \/ exists T, In T Ts /\ atol < snd T) ->
+  exists out, mat2Sim3 rtol atol check
+                (map (fun T => lay_in l (block4 (mscale3 (snd T) (fst (fst T))) (snd (fst T)))) Ts) = Value out /\
+              Forall2 (sim3_of l) Ts out.
+Proof. exact mat2Sim3_rotation. Qed.
+(* mat2RxSO3 drops the translation column *)
+Theorem C11_mat2RxSO3_every_matrix : forall (rtol atol : R) (check : bool) (l : layout) (Ts : list (@mat3 R * vec3R * R)),
+  0 <= rtol -> 0 <= atol < 1 -> Forall (fun T => rotation (fst (fst T)) /\ 0 < snd T) Ts ->
+  (Ts = [] \/ exists T, In T Ts /\ atol < snd T) ->
+  exists out, mat2RxSO3 rtol atol check
+                (map (fun T => lay_in l (block4 (mscale3 (snd T) (fst (fst T))) (snd (fst T)))) Ts) = Value out /\
+              Forall2 rxso3_of Ts out.
+Proof. exact mat2RxSO3_rotation. Qed.
+(* what the *_of relations say, spelled out for one of them *)
+Theorem C11_sim3_of_meaning : forall (l : layout) (T : @mat3 R * vec3R * R) (o : option sim3R),
+  sim3_of l T o <-> exists X, o = Some X /\ valid_Sim3 X /\ snd (snd X) = snd T /\
+                     matrix4 Sim3_act4 X = block4 (mscale3 (snd T) (fst (fst T))) (lay_t l (snd (fst T))).
+Proof. intros. reflexivity. Qed.
+(* from_matrix on ANY batch of 4x4 matrices in layout l is the mat2X of its ltype (0 SO3, 1 SE3, 2 RxSO3,
+   3 Sim3); ltype SO3 accepts all three layouts and reads the 3x3 block *)
+Theorem C11_from_matrix_dispatch : forall (rtol atol : R) (check : bool) (l : layout) (Ms : list (@mat4 R)),
+  from_matrix_l rtol atol 0 check (lay_rows l) (lay_cols l) (map (lay_l l) Ms) =
+    lmap q_l (mat2SO3 rtol atol check (map (fun M => Some (in_rot (lay_in l M))) Ms)) /\
+  from_matrix_l rtol atol 1 check (lay_rows l) (lay_cols l) (map (lay_l l) Ms) =
+    lmap SE3_l (mat2SE3 rtol atol check (map (lay_in l) Ms)) /\
+  from_matrix_l rtol atol 2 check (lay_rows l) (lay_cols l) (map (lay_l l) Ms) =
+    lmap RxSO3_l (mat2RxSO3 rtol atol check (map (lay_in l) Ms)) /\
+  from_matrix_l rtol atol 3 check (lay_rows l) (lay_cols l) (map (lay_l l) Ms) =
+    lmap Sim3_l (mat2Sim3 rtol atol check (map (lay_in l) Ms)).
+Proof. exact from_matrix_dispatch. Qed.
+(* end to end: from_matrix of the entry lists *)
+Theorem C11_from_matrix_SO3_every_matrix : forall (rtol atol : R) (check : bool) (l : layout) (Ts : list (@mat3 R * vec3R)),
+  0 <= rtol -> 0 <= atol < 1 -> Forall (fun T => rotation (fst T)) Ts ->
+  exists out, from_matrix_l rtol atol 0 check (lay_rows l) (lay_cols l) (map (fun T => lay_l l (block4 (fst T) (snd T))) Ts) =
+                Value (map (option_map q_l) out) /\
+              Forall2 (fun T o => so3_of (fst T) o) Ts out.
+Proof. exact from_matrix_SO3_rotation. Qed.
+Theorem C11_from_matrix_SE3_every_matrix : forall (rtol atol : R) (check : bool) (l : layout) (Ts : list (@mat3 R * vec3R)),
+  0 <= rtol -> 0 <= atol < 1 -> Forall (fun T => rotation (fst T)) Ts ->
+  exists out, from_matrix_l rtol atol 1 check (lay_rows l) (lay_cols l) (map (fun T => lay_l l (block4 (fst T) (snd T))) Ts) =
+                Value (map (option_map SE3_l) out) /\
+              Forall2 (se3_of l) Ts out.
+Proof. exact from_matrix_SE3_rotation. Qed.
+Theorem C11_from_matrix_Sim3_every_matrix : forall (rtol atol : R) (check : bool) (l : layout) (Ts : list (@mat3 R * vec3R * R)),
+  0 <= rtol -> 0 <= atol < 1 -> Forall (fun T => rotation (fst (fst T)) /\ 0 < snd T) Ts ->
+  (Ts = [] \/ exists T, In T Ts /\ atol < snd T) ->
+  exists out, from_matrix_l rtol atol 3 check (lay_rows l) (lay_cols l)
+                (map (fun T => lay_l l (block4 (mscale3 (snd T) (fst (fst T))) (snd (fst T)))) Ts) =
+                Value (map (option_map Sim3_l) out) /\
+              Forall2 (sim3_of l) Ts out.
+Proof. exact from_matrix_Sim3_rotation. Qed.
+Theorem C11_from_matrix_RxSO3_every_matrix : forall (rtol atol : R) (check : bool) (l : layout) (Ts : list (@mat3 R * vec3R * R)),
+  0 <= rtol -> 0 <= atol < 1 -> Forall (fun T => rotation (fst (fst T)) /\ 0 < snd T) Ts ->
+  (Ts = [] \/ exists T, In T Ts /\ atol < snd T) ->
+  exists out, from_matrix_l rtol atol 2 check (lay_rows l) (lay_cols l)
+                (map (fun T => lay_l l (block4 (mscale3 (snd T) (fst (fst T))) (snd (fst T)))) Ts) =
+                Value (map (option_map RxSO3_l) out) /\
+              Forall2 rxso3_of Ts out.
+Proof. exact from_matrix_RxSO3_rotation. Qed.
+(* the last row of a 4x4 input is never read (the code only warns about it) *)
+Theorem C11_last_row_ignored : forall (rtol atol : R) (check : bool) (Rs : list (@mat3 R * vec3R)) (last last' : vec4R),
+  let f (b : vec4R) := map (fun Rt : @mat3 R * vec3R => In44 (fst Rt) (snd Rt) b) Rs in
+  mat2SE3 rtol atol check (f last) = mat2SE3 rtol atol check (f last') /\
+  mat2Sim3 rtol atol check (f last) = mat2Sim3 rtol atol check (f last') /\
+  mat2RxSO3 rtol atol check (f last) = mat2RxSO3 rtol atol check (f last').
+Proof. exact last_row_ignored. Qed.
+
+(* ---- totality: for EVERY 3x3 matrix (rotation or not) the selected radicand is >= 1 - |atol| (the branch
+   conditions alone imply it), so for -1 < atol < 1 no item of a returned batch is non-finite ---- *)
+Theorem C11_radicand_bound_every_matrix : forall (atol : R) (M : @mat3 R), 1 - Rabs atol <= mat2SO3_disc atol M.
+Proof. exact disc_bound_any. Qed.
+Theorem C11_mat2SO3_item_finite : forall (atol : R) (M : @mat3 R), -1 < atol < 1 -> exists q, mat2SO3_core atol M = Some q.
+Proof. exact core_finite. Qed.
+Theorem C11_mat2SO3_nocheck_finite : forall (rtol atol : R) (Ms : list (@mat3 R)), -1 < atol < 1 ->
+  exists qs, mat2SO3 rtol atol false (map Some Ms) = Value (map Some qs) /\ length qs = length Ms.
+Proof. exact mat2SO3_nocheck_finite. Qed.
+(* the hypothesis atol < 1 is needed: the tolerance doubles as the threshold of the first mask, and for
+   atol > 1 the identity matrix selects the branch with radicand 0 (0/0: a NaN quaternion, no exception;
+   replayed on the implementation: pp.mat2SO3(torch.eye(3), atol=1.5) = [nan, nan, nan, nan]) *)
+Theorem C11_large_atol_identity_nonfinite : forall atol : R, 1 < atol -> mat2SO3_core atol (@mid3 R _) = None.
+Proof. exact core_large_atol_identity. Qed.
+
+(* ---- check=True, the other three conversions; kinds of exception ---- *)
+Theorem C11_mat2SE3_check_rejects : forall (rtol atol : R) (Ms : list (@matin R)),
+  (exists e, mat2SE3 rtol atol true Ms = Raises e) <-> exists m, In m Ms /\ ~ within_tol rtol atol (in_rot m).
+Proof. exact mat2SE3_check_raises. Qed.
+(* the scaled variants raise exactly when the rank test fires (non-empty batch, every scale within the
+   tolerance of 0) or some block divided by its scale is beyond the tolerances (or not finite) *)
+Theorem C11_mat2Sim3_check_rejects : forall (rtol atol : R) (Ms : list (@matin R)),
+  (exists e, mat2Sim3 rtol atol true Ms = Raises e) <->
+  all_rank_small rtol atol Ms \/ exists m, In m Ms /\ ~ item_within rtol atol (div_item m).
+Proof. exact mat2Sim3_check_raises_iff. Qed.
+Theorem C11_mat2RxSO3_check_rejects : forall (rtol atol : R) (Ms : list (@matin R)),
+  (exists e, mat2RxSO3 rtol atol true Ms = Raises e) <->
+  all_rank_small rtol atol Ms \/ exists m, In m Ms /\ ~ item_within rtol atol (div_item m).
+Proof. exact mat2RxSO3_check_raises_iff. Qed.
+Theorem C11_rank_test_meaning : forall (rtol atol : R) (Ms : list (@matin R)),
+  all_rank_small rtol atol Ms <->
+  Ms <> [] /\ forall m, In m Ms -> lift (fun v => close rtol atol v 0) (cbrt (mdet3 (in_rot m))) = true.
+Proof. intros. reflexivity. Qed.
+(* two classes of inputs that are rejected whatever else the batch holds: a reflection (det = -1) as soon
+   as atol + rtol < 2, and a rotation scaled by s with |s^2 - 1| > atol + rtol *)
+Theorem C11_rejects_reflection_and_scaled : forall (rtol atol : R) (Ms : list (option (@mat3 R))) (M : @mat3 R),
+  In (Some M) Ms ->
+  (atol + rtol < 2 /\ mdet3 M = -1) \/ (exists s R0, M = mscale3 s R0 /\ rotation R0 /\ atol + rtol < Rabs (s * s - 1)) ->
+  exists k, mat2SO3 rtol atol true Ms = Raises (ValueError k) /\ (k = E_orth \/ k = E_det).
+Proof. exact mat2SO3_rejects. Qed.
+(* whatever is raised is a ValueError with a documented message; never a RuntimeError (cf. History) *)
+Theorem C11_raises_only_ValueError : forall (rtol atol : R) (ltype : nat) (check : bool) (rows cols : nat) (data : list (list R)) (e : exn),
+  from_matrix_l rtol atol ltype check rows cols data = Raises e -> is_VE [E_size; E_orth; E_det; E_rank; E_ltype] e.
+Proof. exact from_matrix_raises_VE. Qed.
+Theorem C11_mat2X_raise_kinds : forall (rtol atol : R) (check : bool) (e : exn),
+  (forall Ms, mat2SO3 rtol atol check Ms = Raises e -> check = true /\ is_VE [E_orth; E_det] e) /\
+  (forall Ms, mat2SE3 rtol atol check Ms = Raises e -> check = true /\ is_VE [E_orth; E_det] e) /\
+  (forall Ms, mat2Sim3 rtol atol check Ms = Raises e -> is_VE [E_rank; E_orth; E_det] e /\ (check = false -> e = ValueError E_rank)) /\
+  (forall Ms, mat2RxSO3 rtol atol check Ms = Raises e -> is_VE [E_rank; E_orth; E_det] e /\ (check = false -> e = ValueError E_rank)).
+Proof.
+  intros. split; [intros; eapply mat2SO3_raises_VE; eassumption|]. split; [intros; eapply mat2SE3_raises_VE; eassumption|].
+  split; [intros; eapply mat2Sim3_raises_VE; eassumption | intros; eapply mat2RxSO3_raises_VE; eassumption].
+Qed.
+
+(* ---- the rank test on VALID inputs: where "every positive scale" ends ----
+   a non-empty batch of valid elements whose scales are all <= atol is rejected as "not full rank" (by
+   design: allclose(s, 0)); so a valid non-empty batch converts iff some scale exceeds atol.  With the
+   default atol = 1e-5 the property's range of scales [1e-3, 1e3] is inside. *)
+Theorem C11_mat2Sim3_tiny_scales_raise : forall (rtol atol : R) (check : bool) (l : layout) (Xs : list sim3R),
+  Xs <> [] -> Forall valid_Sim3 Xs -> (forall X, In X Xs -> snd (snd X) <= atol) ->
+  mat2Sim3 rtol atol check (map (fun X => lay_in l (matrix4 Sim3_act4 X)) Xs) = Raises (ValueError E_rank).
+Proof. exact mat2Sim3_tiny_scales_raise. Qed.
+Theorem C11_mat2RxSO3_tiny_scales_raise : forall (rtol atol : R) (check : bool) (l : layout) (Xs : list rxso3R),
+  Xs <> [] -> Forall valid_RxSO3 Xs -> (forall X, In X Xs -> snd X <= atol) ->
+  mat2RxSO3 rtol atol check (map (fun X => lay_in l (matrix4 RxSO3_act4 X)) Xs) = Raises (ValueError E_rank).
+Proof. exact mat2RxSO3_tiny_scales_raise. Qed.
+Theorem C11_mat2Sim3_returns_iff : forall (rtol atol : R) (check : bool) (l : layout) (Xs : list sim3R),
+  0 <= rtol -> 0 <= atol < 1 -> Xs <> [] -> Forall valid_Sim3 Xs ->
+  ((exists out, mat2Sim3 rtol atol check (map (fun X => lay_in l (matrix4 Sim3_act4 X)) Xs) = Value out) <->
+   exists X, In X Xs /\ atol < snd (snd X)).
+Proof. exact mat2Sim3_returns_iff. Qed.
+
+(* ==================== Euler angles, the other direction and the gimbal branch ==================== *)
+(* euler (euler2SO3 (roll, pitch, yaw)) = (roll, pitch, yaw) for angles in the principal ranges, off the
+   gimbal branch: the two conversions are inverses of each other in both directions *)
+Theorem C11_euler_of_euler2SO3 : forall eps r p y : R, 0 <= eps ->
+  - PI < r <= PI -> - (PI / 2) <= p <= PI / 2 -> - PI < y <= PI -> Rabs (sin p) < 1 - eps ->
+  euler eps (euler2SO3 (r, p, y)) = Some (r, p, y).
+Proof. exact euler_of_euler2SO3. Qed.
+(* ... and euler2SO3 (euler q) is q itself up to sign *)
+Theorem C11_euler_roundtrip_quaternion : forall (eps : R) (q : quatR), 0 <= eps -> unitq q ->
+  Rabs (2 * (qw q * vy (qv q) - vz (qv q) * vx (qv q))) < 1 - eps ->
+  exists e, euler eps q = Some e /\ (euler2SO3 e = q \/ euler2SO3 e = qnegate q).
+Proof. exact euler_roundtrip_quat. Qed.
+(* exactly AT the gimbal lock (|sin pitch| = 1) the quaternion is reproduced exactly: roll = 0, pitch = +-pi/2 *)
+Theorem C11_euler_gimbal_lock_exact : forall (eps : R) (q : quatR), 0 <= eps -> unitq q ->
+  Rabs (2 * (qw q * vy (qv q) - vz (qv q) * vx (qv q))) = 1 ->
+  exists e, euler eps q = Some e /\ euler2SO3 e = q /\ vx e = 0 /\ Rabs (vy e) = PI / 2.
+Proof. exact euler_gimbal_exact. Qed.
+(* on the whole gimbal branch 1 - eps <= |sin pitch|: roll = 0, pitch in [-pi/2, pi/2], yaw in [-2pi, 2pi];
+   the rebuilt rotation can equal the original only if y z + x w = 0 (no roll component) *)
+Theorem C11_euler_gimbal_ranges : forall (eps : R) (q : quatR) (e : vec3R), unitq q ->
+  1 - eps <= Rabs (2 * (qw q * vy (qv q) - vz (qv q) * vx (qv q))) -> euler eps q = Some e ->
+  vx e = 0 /\ - (PI / 2) <= vy e <= PI / 2 /\ - (2 * PI) <= vz e <= 2 * PI.
+Proof. exact euler_gimbal_ranges. Qed.
+Theorem C11_euler_gimbal_same_only_if : forall (eps : R) (q : quatR) (e : vec3R), unitq q ->
+  1 - eps <= Rabs (2 * (qw q * vy (qv q) - vz (qv q) * vx (qv q))) ->
+  euler eps q = Some e -> SO3_matrix (euler2SO3 e) = SO3_matrix q ->
+  vy (qv q) * vz (qv q) + vx (qv q) * qw q = 0.
+Proof. exact euler_gimbal_same_only_if. Qed.
+(* so the hypothesis |sin pitch| < 1 - eps of the round trip cannot be dropped: inside the band
+   1 - eps <= |sin pitch| < 1 (eps = 2e-4, the default) the round trip is NOT the same rotation, e.g. for
+   q = (1, 70, 0, 70)/99 (outside the property's claim; replayed on the implementation: entries off by 1.4e-2) *)
+Theorem C11_euler_gimbal_band_not_inverse : exists q : quatR, unitq q /\
+  1 - 1 / 5000 <= Rabs (2 * (qw q * vy (qv q) - vz (qv q) * vx (qv q))) < 1 /\
+  forall e, euler (1 / 5000) q = Some e -> SO3_matrix (euler2SO3 e) <> SO3_matrix q.
+Proof. exact euler_gimbal_band_refuted. Qed.
+(* and "angles in their principal ranges" is FALSE on the gimbal branch: at the gimbal lock
+   q = (1, -1, -1, -1)/2 the returned yaw is -3 pi/2 (for every eps >= 0; the property is read as claiming
+   the ranges on the main branch only; replayed on the implementation: [0, 1.5708, -4.7124]) *)
+Theorem C11_euler_gimbal_yaw_range_refuted : forall eps : R, 0 <= eps ->
+  euler eps ((1 / 2, - (1 / 2), - (1 / 2)), - (1 / 2)) = Some (0, PI / 2, - (3 * PI / 2)).
+Proof. exact euler_gimbal_yaw_not_principal. Qed.
+
 (* hypotheses are satisfiable: a valid Sim3 element with scale 2; rotation by exactly pi about x *)
 Example C11_valid_example : valid_Sim3 ((1, 2, 3), (((3/5, 0, 0), 4/5), 2)).
 Proof. exact valid_example. Qed.
 Example C11_pi_about_x : mat2SO3_core (1 / 100000) (SO3_matrix ((1, 0, 0), 0)) = Some ((1, 0, 0), 0).
 Proof. exact mat2SO3_pi_about_x. Qed.
+
+(* a proper rotation without zero entries; the rotation by exactly pi about y; rejected inputs exist;
+   the hypotheses of the Euler theorems hold for non-trivial quaternions / angles (default eps = 2e-4) *)
+Example C11_rotation_example : rotation ((2/3, -(1/3), 2/3), (2/3, 2/3, -(1/3)), (-(1/3), 2/3, 2/3)).
+Proof. exact rotation_example. Qed.
+Example C11_rotation_pi_about_y : rotation ((-1, 0, 0), (0, 1, 0), (0, 0, -1)).
+Proof. exact rotation_pi_about_y. Qed.
+Example C11_reflection_example : mdet3 ((1, 0, 0), (0, 1, 0), (0, 0, -1)) = -1 /\ 1 / 100000 + 1 / 100000 < 2.
+Proof. exact reflection_example. Qed.
+Example C11_scaled_example : 1 / 100000 + 1 / 100000 < Rabs (2 * 2 - 1).
+Proof. exact scaled_example. Qed.
+Example C11_euler_hyp_example : unitq ((1/5, 2/5, 2/5), 4/5) /\ Rabs (2 * (4/5 * (2/5) - 2/5 * (1/5))) < 1 - 1 / 5000.
+Proof. exact euler_hyp_example. Qed.
+Example C11_tiny_scale_example : valid_Sim3 ((1, 2, 3), (((3/5, 0, 0), 4/5), 1 / 200000)) /\ 1 / 200000 <= 1 / 100000.
+Proof. exact tiny_scale_example. Qed.
+Example C11_gimbal_lock_example : unitq ((1 / 2, - (1 / 2), - (1 / 2)), - (1 / 2)) /\
+  Rabs (2 * (- (1 / 2) * - (1 / 2) - - (1 / 2) * (1 / 2))) = 1.
+Proof. exact gimbal_lock_example. Qed.
+Example C11_euler_angles_example : - PI < PI / 4 <= PI /\ - (PI / 2) <= PI / 6 <= PI / 2 /\ - PI < - (PI / 3) <= PI /\
+  Rabs (sin (PI / 6)) < 1 - 1 / 5000.
+Proof. exact euler_angles_example. Qed.
 
 Print Assumptions C11_mat2SO3_roundtrip. Print Assumptions C11_roundtrip_same_rotation.
 Print Assumptions C11_mat2SO3_discriminant_bound. Print Assumptions C11_mat2SO3_item.
@@ -186,3 +425,21 @@ Print Assumptions C11_accepted_layouts. Print Assumptions C11_from_matrix_reject
 Print Assumptions C11_from_matrix_SO3. Print Assumptions C11_from_matrix_SE3. Print Assumptions C11_from_matrix_RxSO3.
 Print Assumptions C11_from_matrix_Sim3.
 Print Assumptions C11_euler2SO3_is_zyx. Print Assumptions C11_euler2SO3_unit. Print Assumptions C11_euler_roundtrip.
+Print Assumptions C11_rotation_is_quaternion_matrix. Print Assumptions C11_quaternion_matrix_is_rotation.
+Print Assumptions C11_same_matrix_same_quaternion_up_to_sign. Print Assumptions C11_mat2SO3_every_rotation.
+Print Assumptions C11_mat2SO3_item_every_rotation. Print Assumptions C11_mat2SE3_every_matrix.
+Print Assumptions C11_mat2Sim3_every_matrix. Print Assumptions C11_mat2RxSO3_every_matrix.
+Print Assumptions C11_sim3_of_meaning. Print Assumptions C11_from_matrix_dispatch.
+Print Assumptions C11_from_matrix_SO3_every_matrix. Print Assumptions C11_from_matrix_SE3_every_matrix.
+Print Assumptions C11_from_matrix_Sim3_every_matrix. Print Assumptions C11_from_matrix_RxSO3_every_matrix.
+Print Assumptions C11_last_row_ignored. Print Assumptions C11_radicand_bound_every_matrix.
+Print Assumptions C11_mat2SO3_item_finite. Print Assumptions C11_mat2SO3_nocheck_finite.
+Print Assumptions C11_large_atol_identity_nonfinite. Print Assumptions C11_mat2SE3_check_rejects.
+Print Assumptions C11_mat2Sim3_check_rejects. Print Assumptions C11_mat2RxSO3_check_rejects.
+Print Assumptions C11_rank_test_meaning. Print Assumptions C11_rejects_reflection_and_scaled.
+Print Assumptions C11_raises_only_ValueError. Print Assumptions C11_mat2X_raise_kinds.
+Print Assumptions C11_mat2Sim3_tiny_scales_raise. Print Assumptions C11_mat2RxSO3_tiny_scales_raise.
+Print Assumptions C11_mat2Sim3_returns_iff. Print Assumptions C11_euler_of_euler2SO3.
+Print Assumptions C11_euler_roundtrip_quaternion. Print Assumptions C11_euler_gimbal_lock_exact.
+Print Assumptions C11_euler_gimbal_ranges. Print Assumptions C11_euler_gimbal_same_only_if.
+Print Assumptions C11_euler_gimbal_band_not_inverse. Print Assumptions C11_euler_gimbal_yaw_range_refuted.
